@@ -207,7 +207,10 @@ def run(task):
                     k += 1
                     if k % nsh != sh:
                         continue
-                    main = "\n".join(L[:i] + ["  include 'inc1.inc'"] + L[j:]) + "\n"
+                    # spellings of the INCLUDE line (all valid): blank / no blank before the
+                    # quote, either quote, case, extra blanks
+                    spell = ["  include 'inc1.inc'", "  include'inc1.inc'", '  INCLUDE"inc1.inc"', "  Include   'inc1.inc'   "][(i + j) % 4]
+                    main = "\n".join(L[:i] + [spell] + L[j:]) + "\n"
                     check(res, work, pid, std, ref, main, {"inc1.inc": flat(L[i:j])}, "interval [%d,%d)" % (i, j), boundary_feature(prog, i, j), FULL_CONFIGS if (j - i) <= 3 or k % 5 == 0 else LIGHT_CONFIGS)
             res.sample({"program": pid, "split": "[%d,%d)" % (1, min(4, n)), "main": "\n".join(L[:1] + ["  include 'inc1.inc'"] + L[min(4, n):]), "inc1.inc": flat(L[1 : min(4, n)])})
         elif kind == "pairs":
